@@ -13,7 +13,7 @@ L = lane_mod.Lane(os.environ.get('VERIF_REPO', '/repo'), scratch, 0, [prop])
 t0 = time.time(); L.boot(); print('boot %.2fs' % (time.time() - t0))
 rdir = os.path.join(L.scratch, 'run'); os.makedirs(rdir)
 tempfile.tempdir = rdir
-prep = getattr(L.props[prop], 'prepare_job', None)
+prep = None
 t0 = time.time()
 if prep: prep(L, job); print('prepare %.2fs' % (time.time() - t0))
 t0 = time.time()
